@@ -1,5 +1,5 @@
 (** C04 — the fixed file is exactly the fixed tree; templated code is untouched. Pinned statements only. *)
-From Sq Require Import Base.Bytes Patch.Model Patch.Proofs Patch.Legacy.
+From Sq Require Import Base.Bytes Patch.Model Patch.Proofs Patch.Legacy Patch.SpanModel Patch.SpanProofs.
 
 (** What [fix_string] writes for ANY list of patches is the source with the normalised patches
     (first patch per (source slice, text), stable order by start, patches starting before the
@@ -42,3 +42,18 @@ Theorem C04_legacy_refuted :
   exists src ps, sorted_chain ps /\ fix_string_legacy src ps <> splice src 0 ps.
 Proof. exact legacy_refuted. Qed.
 Print Assumptions C04_legacy_refuted.
+
+(** Conflict side ("templated code is untouched"): over raw slices that tile the source, every raw
+    slice a source range [a, b) overlaps is among the slices [raw_slices_spanning_source_slice]
+    returns; hence a deletion / replacement reaching into a placeholder is a template conflict. *)
+Theorem C04_conflict_slices_complete : forall l a b r x,
+  tiles l 0 -> spanning l a b = Some r ->
+  In x l -> r_idx x < b -> a < r_idx x + r_len x -> In x r.
+Proof. exact spanning_complete. Qed.
+Print Assumptions C04_conflict_slices_complete.
+
+Theorem C04_conflict_verdict : forall l a b r x,
+  tiles l 0 -> spanning l a b = Some r ->
+  In x l -> r_tpl x = true -> r_idx x < b -> a < r_idx x + r_len x -> any_templated r = true.
+Proof. exact conflict_complete. Qed.
+Print Assumptions C04_conflict_verdict.
